@@ -143,6 +143,13 @@ def type_infer(t, *, forbid_internal=True):
                 else:
                     t.T = new_type()
                     incr_ctxt[t.name] = t.T
+            elif t.name not in context.ctxt.vars:
+                # An annotated occurrence of an undeclared variable must agree
+                # with the other occurrences of the variable
+                if t.name in incr_ctxt:
+                    unify(t.T, incr_ctxt[t.name])
+                else:
+                    incr_ctxt[t.name] = t.T
             return t.T
 
         # Const case: if type is not known, obtain it from theory,
